@@ -425,6 +425,22 @@ func runTokenChannels(o vh.Opts, rng *vh.RNG, rep *vh.Report, tmp string) {
 		layouts = append(layouts, fs)
 		nMany++
 	}
+	{ // a field that contains the empty value (its MinVal is ""), alone and followed by another field
+		layouts = append(layouts, [][][]byte{{[]byte(""), []byte("a"), []byte("b")}}, [][][]byte{{[]byte(""), []byte("zz")}, {[]byte("k")}},
+			[][][]byte{sortedToks([][]byte{[]byte(""), mk(1, 9000), mk(2, 9000), mk(3, 9000)})})
+		nMany += 3
+	}
+	{ // token blocks larger than 64 KiB: many short values and a sorted run of long ones in one field
+		var toks [][]byte
+		for t := 0; t < 20000; t++ {
+			toks = append(toks, []byte(fmt.Sprintf("m%07d", t)))
+		}
+		for t := 0; t < 3000; t++ {
+			toks = append(toks, []byte(fmt.Sprintf("z%s%06d", strings.Repeat("0123456789", 6)+"01234", t)))
+		}
+		layouts = append(layouts, [][][]byte{sortedToks(toks)})
+		nMany++
+	}
 	for i := 0; i < o.Pick(3, 12); i++ { // many small fields: multi-block token table over shared physical token blocks
 		var fs [][][]byte
 		nf := rng.Range(250, 600)
@@ -482,7 +498,7 @@ func runTokenChannels(o vh.Opts, rng *vh.RNG, rep *vh.Report, tmp string) {
 		for _, fl := range fs {
 			ntok += len(fl)
 		}
-		if ntok > 0 && ntok <= 2000 {
+		if ntok > 0 && (ntok <= 2000 || ntok == 23000) {
 			var asc, desc, rnd, edges []uint32
 			for t := 1; t <= ntok; t++ {
 				asc = append(asc, uint32(t))
